@@ -88,6 +88,7 @@ type CheckResult struct {
 	Wall       float64
 	SolverTime float64
 	BySolver   map[string]int
+	BoundedOK  int
 	Replays    map[*Obligation]string
 	NoInput    map[*Obligation]bool
 }
@@ -160,6 +161,11 @@ func (e *Engine) RunCheck(opt CheckOpts) *CheckResult {
 			res.SolverTime += o.TimeS
 			if o.Verdict == "unsat" {
 				res.BySolver[o.Solver]++
+				if ctx.Bounded {
+					// bounded stand-in: explored up to the stated unrolling bound, never counted as proved
+					res.BoundedOK++
+					continue
+				}
 				res.Counted = append(res.Counted, o)
 				continue
 			}
@@ -306,6 +312,7 @@ func (res *CheckResult) Evidence(opt CheckOpts, cmdline string) map[string]inter
 		"known_findings":           knownL,
 		"failed":                   failedL,
 		"bounded_standins":         bounded,
+		"bounded_obligations_held": res.BoundedOK,
 		"generator_errors":         res.GenErrors,
 		"vacuity":                  map[string]interface{}{"vacuous_functions": res.Vacuous, "canary": "an 'assert false' at every normal exit must not be provable"},
 		"samples":                  samples,
